@@ -28,33 +28,30 @@ OfInt(n) == <<n \div B, n % B>>
 
 Leaf(seq, sig) == [blk |-> FALSE, seq |-> seq, sig |-> sig, items |-> <<>>]
 
+(* a tree is a sequence of nodes; a block node holds a tree again (blocks may be nested to any depth) *)
 RECURSIVE CountLeaves(_)
 CountLeaves(t) == IF t = <<>> THEN 0
-                  ELSE (IF Head(t).blk THEN Len(Head(t).items) ELSE 1) + CountLeaves(Tail(t))
+                  ELSE (IF Head(t).blk THEN CountLeaves(Head(t).items) ELSE 1) + CountLeaves(Tail(t))
 
 (* leaves in rendered order *)
 RECURSIVE Flat(_)
 Flat(t) == IF t = <<>> THEN <<>>
-           ELSE (IF Head(t).blk THEN Head(t).items ELSE <<Head(t)>>) \o Flat(Tail(t))
+           ELSE (IF Head(t).blk THEN Flat(Head(t).items) ELSE <<Head(t)>>) \o Flat(Tail(t))
 
-Sigs(t) == [i \in 1..Len(t) |-> [blk |-> t[i].blk, sig |-> t[i].sig,
-                                  items |-> [j \in 1..Len(t[i].items) |-> t[i].items[j].sig]]]
+(* everything but the numbers *)
+RECURSIVE Sigs(_)
+Sigs(t) == [i \in 1..Len(t) |-> [blk |-> t[i].blk, sig |-> t[i].sig, items |-> Sigs(t[i].items)]]
 
-(* number a flat list of leaves: cur, cur+d, ... ; returns the list and the NEXT number *)
-RECURSIVE NumLeaves(_, _, _)
-NumLeaves(ls, cur, d) ==
-  IF ls = <<>> THEN [out |-> <<>>, next |-> cur]
-  ELSE LET r == NumLeaves(Tail(ls), AddL(cur, d), d)
-       IN  [out |-> <<[Head(ls) EXCEPT !.seq = cur]>> \o r.out, next |-> r.next]
-
-(* number a tree; a block's own number is its last leaf's *)
+(* number a tree: leaves get cur, cur+d, ... in rendered order; a block's own number is its last leaf's;
+   returns the numbered tree and the NEXT number *)
 RECURSIVE NumTree(_, _, _)
 NumTree(t, cur, d) ==
   IF t = <<>> THEN [out |-> <<>>, next |-> cur]
   ELSE LET h == Head(t) IN
        IF h.blk
-       THEN LET inner == NumLeaves(h.items, cur, d)
-                last  == inner.out[Len(inner.out)].seq
+       THEN LET inner == NumTree(h.items, cur, d)
+                fl    == Flat(inner.out)
+                last  == fl[Len(fl)].seq
                 r     == NumTree(Tail(t), inner.next, d)
             IN  [out |-> <<[h EXCEPT !.items = inner.out, !.seq = last]>> \o r.out, next |-> r.next]
        ELSE LET r == NumTree(Tail(t), AddL(cur, d), d)
@@ -77,13 +74,21 @@ ResequenceF(t, s, d) ==
 (* C10 as stated: a direct characterisation, independent of the recursion  *)
 RECURSIVE MulL(_, _)
 MulL(d, k) == IF k = 0 THEN Zero ELSE AddL(d, MulL(d, k - 1))
+(* every block (at any depth) carries the number of its last leaf *)
+RECURSIVE BlocksCarryLast(_)
+BlocksCarryLast(t) == \A i \in 1..Len(t) : t[i].blk => (t[i].seq = Flat(t[i].items)[Len(Flat(t[i].items))].seq /\ BlocksCarryLast(t[i].items))
+RECURSIVE BlocksCleared(_)
+BlocksCleared(t) == \A i \in 1..Len(t) : t[i].blk => (t[i].seq = Zero /\ BlocksCleared(t[i].items))
+RECURSIVE BlocksInRange(_)
+BlocksInRange(t) == \A i \in 1..Len(t) : t[i].blk => (LeqL(t[i].seq, MaxSeq) /\ BlocksInRange(t[i].items))
 NumberedFrom(t, s, d) ==
   LET f == Flat(t) IN
   /\ \A k \in 1..Len(f) : f[k].seq = AddL(s, MulL(d, k - 1))
-  /\ \A i \in 1..Len(t) : t[i].blk => t[i].seq = t[i].items[Len(t[i].items)].seq
+  /\ BlocksCarryLast(t)
 AllCleared(t) == /\ \A k \in 1..Len(Flat(t)) : Flat(t)[k].seq = Zero
-                 /\ \A i \in 1..Len(t) : t[i].seq = Zero
+                 /\ BlocksCleared(t)
 InRange(t) == /\ \A k \in 1..Len(Flat(t)) : LeqL(Zero, Flat(t)[k].seq) /\ LeqL(Flat(t)[k].seq, MaxSeq)
-              /\ \A i \in 1..Len(t) : LeqL(t[i].seq, MaxSeq)
-NoEmptyBlock(t) == \A i \in 1..Len(t) : t[i].blk => t[i].items # <<>>
+              /\ BlocksInRange(t)
+RECURSIVE NoEmptyBlock(_)
+NoEmptyBlock(t) == \A i \in 1..Len(t) : t[i].blk => (Flat(t[i].items) # <<>> /\ NoEmptyBlock(t[i].items))
 =============================================================================
